@@ -81,7 +81,9 @@ def jobs_c09(tier, seed):
         for i, sh in enumerate(shapes):
             lab = ' '.join((a['kind'][0] + str(a['sep_len']) + (f"e{a['eq_l']}{a['eq_r']}v{a['val_len']}" if a['kind'] != 'bare' else '')) for a in sh['attrs'])
             jobs.append(dict(harness='c09_grammar', params=dict(sh, ds=ds, de=de), label=f'tag {ds!r} pad{sh["pad_l"]} [{lab}]'))
-    return c09_opaque_jobs(tier) + jobs
+    # the value of the deciding attribute is opaque as well: it decides as a whole string (blanks, '=' and line breaks inside it included)
+    member = [dict(j, label='[decision probe] ' + j['label']) for j in props_pipe.c06_jobs(tier, seed) if j['params'].get('mode') == 'membership']
+    return c09_opaque_jobs(tier) + member + jobs
 
 
 def jobs_c10(tier, seed):
@@ -92,7 +94,10 @@ def jobs_c10(tier, seed):
     for pre, lab in ((['o'] * 17, '17 unclosed openers'), (['c'] * 17, '17 stray closers'), (['o', 'c'] * 9, '18 mixed inert tags')):
         jobs.append(J('c10_pairing', f'{lab} in front of slot sequences of length 3', len=3, prefix=pre))
     # tags that carry attributes: the name alone decides the pairing (closing tags with words behind the name, values holding the other quote, line breaks)
-    for osuf, csuf in ((" say='\"hi\"' o=\"d's\"", " done k='v'"), ("\n", "\n"), (" a=\"x='y'\"", " end"), (" k", " /"), (" say='\"hi\"'", ""), (" owner=\"the devs'\"", " x")):
+    for pre, lab in ((['e'], 'a closer without a name </>'), (['b'], 'a closer with a blank behind the slash </ www>'), (['s'], 'a closer made of slashes <//>'), (['o', 'e', 'c', 'b'], 'mixed inert tags with nameless closers')):
+        for L in ((2, 3) if tier == 'quick' else (2, 3, 4)):
+            jobs.append(J('c10_pairing', f'{lab} in front of slot sequences of length {L}', len=L, prefix=pre))
+    for osuf, csuf in ((" say='\"hi\"' o=\"d's\"", " done k='v'"), ("\n", "\n"), ("", "\n"), ("\n", ""), (" a=\"x='y'\"", " end"), (" k", " /"), (" say='\"hi\"'", ""), (" owner=\"the devs'\"", " x")):
         for L in (((3, 4) if osuf.startswith(' say') else (3,)) if tier == 'quick' else (2, 3, 4, 5)):
             jobs.append(J('c10_pairing', f'slot sequences of length {L}, tags dressed {osuf!r} {csuf!r}', len=L, open_suffix=osuf, close_suffix=csuf))
     return jobs
@@ -176,7 +181,8 @@ PROPS = {
                     'README-style delimiters (holes may contain delimiter characters), symbolic delimiters.',
         assumptions=COMMON_ASSUME),
     'C09': dict(
-        jobs=jobs_c09, tv=('front', 'pipe'),
+        jobs=jobs_c09, tv=('front', 'pipe'), covers_optional={t: ('value-is-member', 'value-not-member', 'prefix-of-target', 'empty-target-set', 'skip-attribute', 'keyword-inside-value',
+                                                                 'unregistered-name', 'registered-name') for t in ('quick', 'thorough')},
         explanation='tokenize + element_parser::parse on tags generated from the grammar: the shape (number/kind of attributes, padding) is '
                     'enumerated, every name / value / separator / quote byte is symbolic (separators range over blank and line break, values '
                     'over every UTF-8 string without the closing quote and the end delimiter); z3 decides name and attribute spans. Second half: clean on ready / pending '
